@@ -301,18 +301,26 @@ B_FP = B('fromparts', 'from_parts / into_parts of LanguageIdentifier and Locale 
 LID_RT = [V('langid', r'::vspec::lemma_(first_sep_prefix|dash_join_front|split_head_join|dash_join_concat|opt_dash_join|lid_ser_is_join|alnum_no_sep|alpha_is_alnum|und_props|'
                       r'lid_roundtrip|strict_sorted_same_set|lid_expected_unique|lid_parse_ser|lid_ser_injective)$')]
 LID_INV = [V('langid', r'::vspec::lemma_(fold_bytes|fold_classes|var_run_fold|lid_case_invariant|first_sep_fold|subtags_fold|first_sep_none_before|lid_variant_order_invariant)$')]
+LOC_RT = [V('locale', r'::vspec::lemma_(dash_join_one|kv_ser_join|kv_toks_\w+|last_key_at|kv_fold_\w+|keys_ok_from_wf|ext_\w+|u_first_key\w*|tkey_is_stopper|weak_sorted_unique|'
+                       r'x_expected_unique|u_expected_unique|t_expected_unique|dash_lid_ser|e_ser_join|lid_toks_alnum|e_toks_alnum|locale_roundtrip_views)$'),
+          V('locale', r'::(lemma_locale_roundtrip|lemma_extmap_roundtrip)$'), V('locale', r'::TransformExtensionList::lemma_view_ok$'),
+          V('langid', r'::vspec::lemma_lid_roundtrip_suffix$')]
 RT_K = [K('langid_leaf', h) for h in LEAF_LID + ['leaf_language_default_is_und', 'leaf_subtag_eq_str']]
 
 PROPS.update({
     'C05': {
         'kani': RT_K + LOCALE_LEAF,
-        'verus': [V('bridge', BRIDGE_ALL)] + LID_PARSER + LID_DISPLAY + LID_RT + LOC_PARSER + LOC_DISPLAY,
+        'verus': [V('bridge', BRIDGE_ALL)] + LID_PARSER + LID_DISPLAY + LID_RT + LOC_PARSER + LOC_DISPLAY + LOC_RT,
         'bounded': [B_RT],
         'standin': ['lid', 'locale'],
         'trusted': ['the link from views to values (equal views of wf values are == values) is rustc derive semantics + axiom_text_injective',
-                    'LanguageIdentifier and subtags: proved; Locale / ExtensionsMap: the parser and Display contracts are proved (C03, C04) but the lemma composing them '
-                    '(parse(ser(v)) == v for extension views) is NOT proved: that link is covered by the bounded obligation bounded:rt only'],
-        'explanation': 'parser contract (from_bytes(b) = Ok(y) with lid_expected(subtags_of(b), y.view()) iff the grammar accepts) + Display contract (to_string(x) = lid_ser(x.view())) + '
+                    'Locale / ExtensionsMap: lemma_locale_roundtrip / lemma_extmap_roundtrip carry the hypothesis keys_listable (the keyword / tfield maps can list their keys in '
+                    'sorted order - true of every finite map, obtained from BTreeMap iteration in the Display proofs, not proved for arbitrary maps here); bounded:rt re-checks '
+                    'the composition on the real library'],
+        'explanation': 'Locale level: lemma_locale_roundtrip (for every well-formed Locale l, the grammar of C03 accepts subtags_of(locale_ser(l)) and ANY value it prescribes - '
+                       'in particular the result of Locale::from_bytes, by its verified contract - has l\'s identifier, -u-, -t- and -x- views), lemma_extmap_roundtrip likewise for '
+                       'ExtensionsMap::from_bytes on the extension string; '
+                       'parser contract (from_bytes(b) = Ok(y) with lid_expected(subtags_of(b), y.view()) iff the grammar accepts) + Display contract (to_string(x) = lid_ser(x.view())) + '
                        'lemma_lid_roundtrip / lemma_lid_parse_ser (for every well-formed view v: subtags_of(lid_ser(v)) are v\'s own subtags, the grammar accepts them and prescribes v again) '
                        'give parse(to_string(x)) == x for every LanguageIdentifier of the safe API, hence canonicalize idempotence; subtags: Kani leaf contracts (stored text re-parses to itself)',
     },
@@ -333,9 +341,11 @@ PROPS['C10']['bounded'] = [B_MUT]
 PROPS['C04']['bounded'] = [B_RT, B_MUT]
 PROPS['C10']['standin'] = ['locale']
 PROPS['C17']['bounded'] = [B_FP]
+PROPS['C17']['verus'] = PROPS['C17']['verus'] + LOC_RT + LID_RT
 PROPS['C17']['kani'] = PROPS['C17']['kani'] + [K('langid_leaf', h) for h in ['leaf_variant_ord_is_lex', 'leaf_language_ord_is_lex', 'leaf_script_ord_is_lex', 'leaf_region_ord_is_lex']]
 PROPS['C13']['standin'] = ['lid', 'locale']
 PROPS['C12']['bounded'] = [B_MUT]
+PROPS['C12']['verus'] = PROPS['C12']['verus'] + LOC_RT
 PROPS['C12']['verus'] = PROPS['C12']['verus'] + [V('langid', r'::vspec::lemma_(lid_ser_injective|lid_parse_ser|lid_roundtrip|strict_sorted_same_set|lid_expected_unique)$')]
 
 NOT_APPLICABLE = {
